@@ -7,6 +7,9 @@ From PowHsm Require Import Model.LedgerProtocol.
 From PowHsm Require Import Model.Server.
 From PowHsm Require Import Proofs.C02.
 From PowHsm Require Import Proofs.C03.
+From PowHsm Require Import Gen.Src.
+From PowHsm Require Import Proofs.SrcEquivProto.
+From PowHsm Require Import Proofs.SrcLiftC02.
 Open Scope N_scope.
 
 (* for every JSON value the request gate answers or accepts; it never raises (rests on the generated command/validator tables) *)
@@ -98,5 +101,19 @@ Theorem C03_no_error_result_escapes_note :
            assoc_str cmd (dispatch_table m) = Some opname /\
            run_operation keccak kind m opname req = Some op.
 Proof. exact (@dispatch_total). Qed.
+
+(* the request gate of the source, as translated on this run, is the total function gate_spec of the model: for every JSON value it yields a reply or hands over to an operation; together with C03_gate_never_crashes no value makes it raise *)
+Theorem C03_source_gate_total :
+  forall (op : pv -> pv -> pr pv) (self : pv) (request : json),
+         src_HSM2Protocol____internal_handle_request op self (of_json request) =
+         gate_spec V5 op request.
+Proof. exact (@src_gate_v5). Qed.
+
+(* the same for the legacy protocol class *)
+Theorem C03_source_gate_total_v1 :
+  forall (op : pv -> pv -> pr pv) (self : pv) (request : json),
+         src_HSM1Protocol____internal_handle_request op self (of_json request) =
+         gate_spec V1 op request.
+Proof. exact (@src_gate_v1). Qed.
 
 Example C03_nonvacuous : True. Proof. exact I. Qed. (* concrete lifetimes closed by vm_compute in Proofs/C03.v, including one that does stop (status outside the device range) *)
